@@ -30,28 +30,33 @@ def search(res, tier, seed, deep=False):
         for name in R.ALL:
             modes = ["none", "days"] + (["years"] if name in ("CDFt", "QuantileDeltaMapping") else [])
             if tier == "quick": modes = ["none", modes[1 + (rnd + len(name)) % (len(modes) - 1)]]
-            for mode in modes:
+            for mi, mode in enumerate(modes):
                 for var in (("tas", "pr") if name in ("LinearScaling", "DeltaChange") else ("tas",)):
                     d = R.build(name, var, mode, r)
                     rs = np.random.RandomState(r.randint(0, 10 ** 6))
                     ny = r.choice([2, 3]); n = 365 * ny + (1 if ny == 3 else 0)
                     bias = r.choice([-4.0, 2.5, 6.0]); sc = r.choice([0.7, 1.5])
+                    # the simulation need not be as long as the observed record (whole years both): 10 years of obs against
+                    # 30 of model output is the usual case
+                    nH = n if (mi + seed + rnd) % 2 else r.choice([365 * (ny + 1) + 1, 3652])
+                    # relative biases of more than a factor of ten in either direction now and then (multiplicative settings)
+                    prs = (1.0 + abs(bias) / 4) if (mi + seed + rnd) % 2 == 0 else r.choice([40.0, 0.04])
                     if var == "tas":
-                        obs, hist = R.series(rs, n, "tas"), R.series(rs, n, "tas", bias, sc)
+                        obs, hist = R.series(rs, n, "tas"), R.series(rs, nH, "tas", bias, sc)
                     else:
-                        obs, hist = R.series(rs, n, "pr"), R.series(rs, n, "pr", scale=1.0 + abs(bias) / 4)
-                    tO = R.times(n, "1981-01-01"); tH = tO
+                        obs, hist = R.series(rs, n, "pr"), R.series(rs, nH, "pr", scale=prs)
+                    tO = R.times(n, "1981-01-01"); tH = R.times(nH, "1981-01-01")
                     if name == "DeltaChange":
                         # the model period need not be the observed one: another start date and length
                         nH = r.choice([n, n + 200, 2 * n]); startH = r.choice(["1981-01-01", "1971-01-01", "1975-04-11"])
-                        hist = R.series(rs, nH, var, bias, sc) if var == "tas" else R.series(rs, nH, "pr", scale=1.0 + abs(bias) / 4)
+                        hist = R.series(rs, nH, var, bias, sc) if var == "tas" else R.series(rs, nH, "pr", scale=prs)
                         tH = R.times(nH, startH)
-                    inp = dict(debiaser=name, variable=var, window_mode=mode, bias=bias, scale=sc, n=n, n_hist=int(hist.size), start_hist=str(tH[0])[:10], seed=seed)
+                    inp = dict(debiaser=name, variable=var, window_mode=mode, bias=bias, scale=sc, pr_scale=(prs if var == "pr" else None), n=n, n_hist=int(hist.size), start_hist=str(tH[0])[:10], seed=seed)
                     try:
                         out = R.run(d, obs, hist, hist.copy(), tO, tH, tH)
                     except Exception as e:
                         report("exception:" + name, inp, repr(e)[:300], "apply_location raised"); continue
-                    res.case(("c01", name, var, mode))
+                    res.case(("c01", name, var, mode, int(hist.size) != n, var == "pr" and prs in (40.0, 0.04)))
                     orig = hist.mean() - obs.mean()
                     resid = out.mean() - obs.mean()
                     if name == "DeltaChange":
